@@ -51,3 +51,38 @@ LEVEL_TEXT = ("Unbounded Coq theorems about the Gallina transcription of all eig
 LEVEL_NOTE = ("Trusted: Coq kernel + vm_compute; hand transcription validated on generated scripts; the wait recorder "
               "hook; only the plain-thread path is exercised (inside a coroutine the same loop code runs, the wait "
               "suspends the coroutine instead). No axioms.")
+
+
+def extra(tier, rng, build_cache, known):
+    """Real sockets: hooked connect from a blocking (and from a non-blocking) TCP socket to a dead loopback
+    port (the failure is learnt asynchronously: EINPROGRESS, wait, SO_ERROR) and to a live listener: the
+    descriptor keeps the mode the caller set, whatever the outcome."""
+    from .. import core
+    key = ((), False)
+    if key not in build_cache:
+        build_cache[key], _ = core.build_harness((), False)
+    n = 3 if tier == "quick" else 12
+    cases = [{"id": i, "origin": "extra", "kind": "connect_real",
+              "ops": [{"live": live, "nb": nb} for live in (False, True) for nb in (False, True)]} for i in range(n)]
+    res = core.run_harness(build_cache[key], "connreal", cases, isolate=True, timeout_ms=30000, jobs=3)
+    viol, ok = [], 0
+    for c in cases:
+        r = res[c["id"]]
+        bad = None
+        for o, v in zip(c["ops"], r):
+            if not isinstance(v, dict):
+                bad = "scenario did not finish"
+            elif v["nb_after"] != v["nb_before"]:
+                bad = ("hooked connect (%s, ret %s errno %s) changed the descriptor's mode: O_NONBLOCK %s -> %s"
+                       % ("live listener" if o["live"] else "dead port", v["ret"], v["errno"], v["nb_before"], v["nb_after"]))
+            elif not o["live"] and not o["nb"] and not (v["ret"] == -1 and v["errno"] == 111):
+                bad = "connect to a dead loopback port from a blocking socket: expected -1/ECONNREFUSED, got %s/%s" % (v["ret"], v["errno"])
+            elif o["live"] and not o["nb"] and v["ret"] != 0:
+                bad = "connect to a live listener from a blocking socket failed: %s/%s" % (v["ret"], v["errno"])
+            if bad:
+                break
+        if bad:
+            viol.append({"case": c, "obs": r, "tags": ["connect_mode_not_restored"], "note": bad})
+        else:
+            ok += 1
+    return {"info": {"connect_real_cases": len(cases), "connect_real_ok": ok}, "violations": viol}
